@@ -312,3 +312,30 @@ Proof.
   eexists. split; [reflexivity|]. cbn [o_version o_img o_idx o_count o_fs].
   split; [reflexivity|]. split; [reflexivity|]. split; [exact Found|]. split; [rewrite Cnt; reflexivity|exact Part].
 Qed.
+
+(* C04 on files at rest: the open leaves the bytes alone, so opening again -- any number of times --
+   gives the same answer *)
+Fixpoint reopen (c : rcfg) (n : nat) (img : image) : res opened * image :=
+  match n with
+  | O => open_image c img
+  | S k => reopen c k (snd (open_image c img))
+  end.
+
+Theorem reopening_a_quiescent_file_changes_nothing c img m jgen jslot its n :
+  c_ro c = false -> c_now c = None ->
+  (17 <= length img)%nat ->
+  let total := N.of_nat (length img) in
+  let mb := if select_meta (nth_block img 0) (nth_block img (N.to_nat FEOX_METADATA_BACKUP_BLOCK))
+            then nth_block img (N.to_nat FEOX_METADATA_BACKUP_BLOCK) else nth_block img 0 in
+  list_eqb (firstn 8 mb) SIGNATURE = true -> decode_meta mb = Some m -> has_token (m_version m) = true ->
+  decode_journal (slot_bytes img 0) (slot_bytes img 1) total = Some (jgen, jslot, []) ->
+  total * FEOX_BLOCK_SIZE < U64 ->
+  Forall (item_ok (m_version m)) its -> distinct_keys (recs_of its) ->
+  skipn (N.to_nat FEOX_DATA_START_BLOCK) img = ilayout (m_version m) FEOX_DATA_START_BLOCK its ->
+  reopen c n img = open_image c img /\ snd (open_image c img) = img.
+Proof.
+  intros Hrw Hnow Hlen total mb Hsig Hdec Htok Hj Hu Hok Hd Himg.
+  destruct (open_reads_a_quiescent_file c img m jgen jslot its Hrw Hnow Hlen Hsig Hdec Htok Hj Hu Hok Hd Himg) as (o & E & _).
+  assert (S : snd (open_image c img) = img) by (rewrite E; reflexivity).
+  split; [|exact S]. induction n as [|k IH]; [reflexivity|]. cbn [reopen]. rewrite S. exact IH.
+Qed.
